@@ -20,7 +20,7 @@ EXTRA = {"C02/3": ["C06"], "C03/1": ["C05"], "C10/1": ["C05"], "C19/1": ["C13"],
          "C07/8": ["C08", "C17"], "C08/8": ["C01"], "C09/9": ["C17", "C04"], "C10/8": ["C06"], "C10/9": ["C06"], "C13/9": ["C17"], "C17/8": ["C09"],
          "C17/9": ["C04"],
          # round 5 (stored as 10): EVAL_OFFSET=9
-         "C02/10": ["C14", "C10"], "C04/10": ["C12"], "C05/10": ["C10"], "C07/10": ["C09", "C17"], "C08/10": ["C14"], "C09/10": ["C12"], "C10/10": ["C01", "C04"], "C11/10": ["C13"], "C13/10": ["C11", "C10"], "C15/10": ["C07", "C01"], "C17/10": ["C04"], "C19/10": ["C13"], "C12/10": ["C07"], "C01/10": ["C11"], "C06/10": ["C10"], "C19/9": ["C13"], "C11/9": ["C05"], "C19/8": ["C01"]}
+         "C02/10": ["C14", "C10"], "C03/10": ["C04", "C17"], "C04/10": ["C12"], "C05/10": ["C10"], "C07/10": ["C09", "C17"], "C08/10": ["C14"], "C09/10": ["C12"], "C10/10": ["C01", "C04"], "C11/10": ["C13"], "C13/10": ["C11", "C10"], "C15/10": ["C07", "C01"], "C17/10": ["C04"], "C19/10": ["C13"], "C12/10": ["C07"], "C01/10": ["C11"], "C06/10": ["C10"], "C19/9": ["C13"], "C11/9": ["C05"], "C19/8": ["C01"]}
 def sh(cmd, **kw):
     return subprocess.run(cmd, shell=True, stdout=subprocess.PIPE, stderr=subprocess.STDOUT, text=True, **kw)
 for t in targets:
